@@ -244,6 +244,69 @@ static void c3_case(uint64_t idx, void *vctx)
         vf_sample("dest %s %dx%d clip=%s alpha-map#%d src-option#%d mask-option#%d: 840 request rectangles x 2 complementary runs + compute_composite_region", DFMT_N[fi], W, H, dclip.name, ai, so, mo);
 }
 
+/* ---------- clips of the ALPHA MAPS of source and mask ----------
+ * A source's (mask's) alpha map may carry a client clip of its own; with source clipping enabled on it, it bounds the request like the image's own clip,
+ * translated by the image's origin in the request minus the alpha map's origin in the image.  Source and mask origins differ, so each translation is seen. */
+static void amapclip_case(uint64_t idx, void *vctx)
+{
+    (void)vctx;
+    static const int SXS[3] = { 0, 2, -1 }, MXS[3] = { 0, 1, 3 }, AO[3][2] = { { 0, 0 }, { -1, 0 }, { -2, -1 } };       /* origins <= 0 and alpha maps two pixels larger: every pixel of the image has an alpha-map pixel (an alpha map does not repeat) */
+    int dims[7] = { 3, 3, 3, 3, 2, 2, 2 }, d[7]; vf_decode(idx, dims, 7, d);
+    int sx = SXS[d[0]], mx = MXS[d[1]], sao = d[2], mao = d[3], s_has = d[4], m_has = d[5], sy = d[6];
+    enum { W = 12, H = 6 };
+    clip_t ca = make_clip(1, W, H), cb = make_clip(2, W, H), big = make_clip(5, W, H);
+    uint8_t in[W * H];
+    for (int run = 0; run < 2 && !vf_failed(); run++) {
+        uint8_t fill = run ? 0xff : 0x00;
+        static uint32_t spix[64 * 8], apix[64 * 8]; static uint8_t mpix[64 * 8], ampix[64 * 8];
+        for (int i = 0; i < 64 * 8; i++) { spix[i] = run ? 0 : 0xffffffffu; apix[i] = run ? 0 : 0xffffffffu; }
+        memset(mpix, 0xff, sizeof mpix); memset(ampix, 0xff, sizeof ampix);
+        pixman_image_t *src = pixman_image_create_bits(PIXMAN_a8r8g8b8, W, H, spix, 64 * 4), *sam = pixman_image_create_bits(PIXMAN_a8r8g8b8, W + 2, H + 2, apix, 64 * 4);
+        pixman_image_t *msk = pixman_image_create_bits(PIXMAN_a8, W, H, (uint32_t *)mpix, 64), *mam = pixman_image_create_bits(PIXMAN_a8, W + 2, H + 2, (uint32_t *)ampix, 64);
+        pixman_image_set_repeat(src, PIXMAN_REPEAT_NORMAL); pixman_image_set_repeat(msk, PIXMAN_REPEAT_NORMAL);
+        pixman_image_set_repeat(sam, PIXMAN_REPEAT_NORMAL); pixman_image_set_repeat(mam, PIXMAN_REPEAT_NORMAL);
+        if (s_has) { clip_apply(sam, &ca); pixman_image_set_source_clipping(sam, 1); pixman_image_set_has_client_clip(sam, 1); }
+        if (m_has) { clip_apply(mam, &cb); pixman_image_set_source_clipping(mam, 1); pixman_image_set_has_client_clip(mam, 1); }
+        clip_apply(msk, &big); pixman_image_set_source_clipping(msk, 1); pixman_image_set_has_client_clip(msk, 1);      /* the mask has a (non-restricting) clip of its own */
+        pixman_image_set_alpha_map(src, sam, (int16_t)AO[sao][0], (int16_t)AO[sao][1]);
+        pixman_image_set_alpha_map(msk, mam, (int16_t)AO[mao][0], (int16_t)AO[mao][1]);
+        gbuf_t g = gb_make(32, W, H, fill);
+        pixman_image_t *dst = pixman_image_create_bits(PIXMAN_a8r8g8b8, W, H, (uint32_t *)g.pix, g.stride);
+        static const int RQ[3][4] = { { 0, 0, W, H }, { 1, 1, 9, 4 }, { -2, 0, 8, 7 } };
+        for (int q = 0; q < 3 && !vf_failed(); q++) {
+            int dx = RQ[q][0], dy = RQ[q][1], rw = RQ[q][2], rh = RQ[q][3], my = 0, any = 0;
+            for (int y = 0; y < H; y++) for (int x = 0; x < W; x++) {
+                int inside = x >= dx && x < dx + rw && y >= dy && y < dy + rh;
+                /* the big mask clip (-3,-2)-(W+5,H+4) in mask coordinates */
+                int mcx = x - dx + mx, mcy = y - dy + my; inside = inside && mcx >= -3 && mcx < W + 5 && mcy >= -2 && mcy < H + 4;
+                if (s_has) inside = inside && clip_has(&ca, x - dx + sx - AO[sao][0], y - dy + sy - AO[sao][1]);
+                if (m_has) inside = inside && clip_has(&cb, x - dx + mx - AO[mao][0], y - dy + my - AO[mao][1]);
+                in[y * W + x] = (uint8_t)inside; any |= inside;
+            }
+            memset(g.base, fill, g.total);
+            pixman_image_composite32(PIXMAN_OP_SRC, src, msk, dst, sx, sy, mx, my, dx, dy, rw, rh);
+            vf_count_libcalls(1);
+            int bx, by, kind; char what[300];
+            snprintf(what, sizeof what, "dest a8r8g8b8 12x6, source at (%d,%d) with an alpha map at origin (%d,%d) %s, a8 mask at (%d,0) with an alpha map at origin (%d,%d) %s, request (%d,%d) %dx%d run=%d",
+                     sx, sy, AO[sao][0], AO[sao][1], s_has ? "clipped to one rectangle (client clip, source clipping on)" : "unclipped", mx, AO[mao][0], AO[mao][1], m_has ? "clipped to an L of two rectangles" : "unclipped", dx, dy, rw, rh, run);
+            if (!gb_check(&g, fill, in, &bx, &by, &kind)) {
+                static const char *kk[] = { "c03-wrote-outside-region", "c03-region-pixel-not-drawn", "c03-padding-modified", "c03-guard-modified" };
+                vf_violation(kk[kind], "%s: %s at (%d,%d) (the region includes the client clips of the alpha maps)", what, kind == 1 ? "pixel inside the composite region was not drawn" : "pixel outside the composite region was modified", bx, by);
+                break;
+            }
+            pixman_region16_t r16; pixman_region_init(&r16);
+            int ret = pixman_compute_composite_region(&r16, src, msk, dst, (int16_t)sx, (int16_t)sy, (int16_t)mx, (int16_t)my, (int16_t)dx, (int16_t)dy, (uint16_t)rw, (uint16_t)rh);
+            int n; pixman_box16_t *b = pixman_region_rectangles(&r16, &n); int bad = (ret != 0) != (any != 0);
+            if (ret) for (int y = 0; y < H && !bad; y++) for (int x = 0; x < W; x++) { int rin = 0; for (int k = 0; k < n; k++) if (x >= b[k].x1 && x < b[k].x2 && y >= b[k].y1 && y < b[k].y2) rin = 1; if (rin != in[y * W + x]) { bad = 1; bx = x; by = y; break; } }
+            if (bad) vf_violation("c03-compute-region-wrong", "%s: pixman_compute_composite_region returned %d with %d rectangles; the model region is %s (first difference near (%d,%d))", what, ret, n, any ? "non-empty" : "empty", bx, by);
+            pixman_region_fini(&r16);
+        }
+        pixman_image_unref(src); pixman_image_unref(msk); pixman_image_unref(sam); pixman_image_unref(mam); pixman_image_unref(dst); free(g.base);
+    }
+    vf_count_eval(6); vf_count_nontrivial(s_has || m_has ? 6 : 0);
+    if (!vf_in_confirm) vf_outcome(idx);
+}
+
 /* ---------- other entry points: changed pixels are confined to bounds ∩ clip (∩ boxes) ---------- */
 static void other_case(uint64_t idx, void *vctx)
 {
@@ -473,6 +536,7 @@ int main(int argc, char **argv)
     c3_ctx c = { th };
     int nso = th ? NSOPT : NSOPT_Q;
     vf_space_run("composite32-and-compute-region", (uint64_t)2 * NDFMT * 7 * NAOPT * nso * (nso + 1) * 3, c3_case, &c);
+    vf_space_run("clips-of-source-and-mask-alpha-maps", 3 * 3 * 3 * 3 * 2 * 2 * 2, amapclip_case, NULL);
     vf_space_run("fill-glyph-trapezoid-entry-points", (uint64_t)2 * NDFMT * 7 * 5 * 21, other_case, NULL);
     vf_space_run("trapezoid-entry-points-pixel-aligned-rectangles", 5 * 3 * 2 * 3 * 8 * 2 * 2, trap_box_case, NULL);
     vf_space_run("trapezoid-entry-points-at-the-edges", (uint64_t)4 * 2 * 3 * 3 * TB_NY * TB_NY * TB_NLX * TB_NRX, trap_bounds_case, NULL);
